@@ -65,7 +65,17 @@ type Str struct {
 	sym   []*Term
 	atom  *Term // Int-sorted rank
 	aname string
-	lazy  *lazyStr // formatted text that is only materialised when inspected
+	lazy  *lazyStr  // formatted text that is only materialised when inspected
+	spans []numSpan // decimal renderings of known integer terms inside the string
+}
+
+// numSpan records that bytes [lo,hi) are the decimal rendering (strconv.FormatInt
+// base 10) of val. Parsing exactly that span back yields val (summary of the pure
+// pair FormatInt/ParseInt).
+type numSpan struct {
+	lo, hi int
+	val    *Term // 64-bit
+	signed bool
 }
 
 type lazyStr struct {
@@ -157,10 +167,18 @@ func (s Str) slice(lo, hi int) Str {
 	if s.lazy != nil {
 		return s.force().slice(lo, hi)
 	}
+	var out Str
 	if s.sym != nil {
-		return strFromBytes(s.sym[lo:hi])
+		out = strFromBytes(s.sym[lo:hi])
+	} else {
+		out = Str{s: s.s[lo:hi]}
 	}
-	return Str{s: s.s[lo:hi]}
+	for _, sp := range s.spans {
+		if sp.lo >= lo && sp.hi <= hi {
+			out.spans = append(out.spans, numSpan{sp.lo - lo, sp.hi - lo, sp.val, sp.signed})
+		}
+	}
+	return out
 }
 
 func strConcat(a, b Str) Str {
@@ -186,7 +204,15 @@ func strConcat(a, b Str) Str {
 		panic(unsupported("concatenation of atom strings"))
 	}
 	x := append(append([]*Term{}, a.bytes()...), b.bytes()...)
-	return strFromBytes(x)
+	out := strFromBytes(x)
+	if len(a.spans)+len(b.spans) > 0 {
+		out.spans = append(out.spans, a.spans...)
+		n := a.Len()
+		for _, sp := range b.spans {
+			out.spans = append(out.spans, numSpan{sp.lo + n, sp.hi + n, sp.val, sp.signed})
+		}
+	}
+	return out
 }
 
 func (s Str) String() string {
